@@ -1141,6 +1141,9 @@ def check_C10(ctx, rep):
     rep.rule('C10.R3', 'every global event (TriggerEvent variants without a machine id, and BlockingBegin) is delivered to every machine: '
              'each path through its arm of process_event runs the 0..runtime.len() loop and each iteration calls transition(mi, same event); '
              'id-carrying events return early only when the id is out of range and otherwise call transition(id, same event)')
+    rep.rule('C10.R5', 'an event for an unknown machine id reaches no machine: MachineId::from_raw / into_raw are identity wrappers around '
+             'usize, so the id tested against runtime.len() is the id that was reported')
+    check_helpers_ids(ctx, rep, 'C10.R5')
     sanctioned = {'rng': 'random stream (excluded by the property\'s premise)', 'signal_pending': 'signals are a sanctioned coupling'}
     n_idx = 0
     for name in STEP_FNS:
@@ -1467,6 +1470,15 @@ def check_C06(ctx, rep):
              '(a NaN probability would make every later target unreachable)')
     from .rules_valid import check_state_vectors
     check_state_vectors(ctx, rep, 'C06.R5', 'C06.R5')
+    rep.rule('C06.R7', 'the slot an event selects is the slot its transitions were declared in: Event keeps its variant order under the same '
+             'format VERSION (to_usize is the discriminant; a parsed machine stores its vectors by position)')
+    from .rules_valid import check_wire_layout
+    check_wire_layout(ctx, rep, 'C06.R7')
+    rep.rule('C06.R6', 'the vectors a framework samples from are the ones that were declared: Clone for Machine, State and Trans is the '
+             'compiler-derived field-wise clone (clone / clone_from cannot leave a stale or missing vector behind)')
+    for ty in ('machine::Machine', 'state::State', 'state::Trans'):
+        imps = [i for i in prog.impls if i['crate'] == FW and i['trait'].endswith('clone::Clone') and i['self_ty'].split('<')[0].endswith(ty)]
+        rep.ob('C06.R6', ty, 'derived-clone', len(imps) == 1 and imps[0]['derived'], 'Clone impls: %d, derived: %s' % (len(imps), [i['derived'] for i in imps]))
     return 'sampling skeleton of State::sample_state: selection, half-open draw, update-before-compare order, strictness, target identity, residual None'
 
 
